@@ -40,6 +40,23 @@ MODULES = {
         "rolling_buffer_shape"],
         {"__wrappers__": ["Shape4D"],
          "rolling_buffer_shape": {"records": ["producer_stripe", "consumer_stripe_input"]}}),
+    "graph_optimiser_util": ("ethosu/vela/graph_optimiser_util.py", "SrcGraphOptimiserUtil", [
+        "needed_total_padding", "calc_explicit_padding"], {}),
+    "shape4d": ("ethosu/vela/shape4d.py", "SrcShape4d", [
+        "Shape4D._clip_len", "Shape4D.clip", "Shape4D.round_up", "Shape4D.div_round_up", "Shape4D.__add__",
+        "Shape4D.__sub__", "Shape4D.__floordiv__", "Shape4D.__mod__", "Shape4D.elements"],
+        dict({"__tuples__": {"Shape4D": "ethosu/vela/shape4d.py"}},
+             **{"Shape4D." + f: {"params": {p: py2lean.NT("Shape4D") for p in ps}} for f, ps in (
+                 ("clip", ("self", "offset", "sub_shape")), ("round_up", ("lhs", "rhs")), ("div_round_up", ("self", "rhs")),
+                 ("__add__", ("self", "rhs")), ("__sub__", ("self", "rhs")), ("__floordiv__", ("self", "rhs")),
+                 ("__mod__", ("self", "rhs")), ("elements", ("self",)))})),
+    "tensor": ("ethosu/vela/tensor.py", "SrcTensor", [
+        "Tensor.get_strides", "Tensor.get_full_shape", "Tensor.storage_size_for_shape"],
+        {"Tensor.get_strides": {"records": ["self"], "opaque": {"self.get_augmented_shape": [L(N)]},
+                                "opaque_targets": {"stride": N}},
+         "Tensor.get_full_shape": {"records": ["self"], "record_lists": ["self.shape"]},
+         "Tensor.storage_size_for_shape": {"records": ["self"], "opaque": {"shape_num_elements": [N]},
+                                           "opaque_targets": {}}}),
     "register_command_stream_util": ("ethosu/vela/register_command_stream_util.py", "SrcRegisterCommandStreamUtil", [
         "shape3d_size", "coords_intersect", "get_offset_block_coords", "get_prev_job_output_volume",
         "get_first_job_input_volume", "get_address", "get_strides", "get_address_range",
